@@ -74,7 +74,17 @@ def run(ctx):
     flip = [a for a in tg if a.rhs.canon() == '~expected_data_toggle']
     clr = [a for a in tg if q.is_zero(a.rhs)]
     HALT_OUT = {(I + 'clear_endpoint_halt_in.enable', True), (I + 'clear_endpoint_halt_in.direction', False), ('self._endpoint_number == ' + I + 'clear_endpoint_halt_in.number', True)}
-    ok = len(tg) == 2 and len(flip) == 1 and len(clr) == 1 and q.atoms(clr[0]) == HALT_OUT and clr[0].order > flip[0].order
+    # the clear wins over the flip: either it is the later assignment, or the flip is the Elif arm of the clear
+    # (its guard excludes the whole clear condition)
+    from ..fsm import lit_atoms, assignments, holds
+    wins = False
+    if len(flip) == 1 and len(clr) == 1:
+        ats = sorted({x for a in (flip[0], clr[0]) for l in a.guard for x in lit_atoms(l)})
+        wins = True
+        for asg in assignments(ats):
+            if holds(clr[0].guard, asg) and holds(flip[0].guard, asg) and not clr[0].order > flip[0].order:
+                wins = False
+    ok = len(tg) == 2 and len(flip) == 1 and len(clr) == 1 and q.atoms(clr[0]) == HALT_OUT and wins
     ctx.ob('C14.clear-halt-decode', 'USBStreamOutEndpoint.expected_data_toggle', ok, clr[0].loc if clr else None,
            'an OUT endpoint has one flip and one clear; the clear fires for enable & ~direction & its own number: %s' % [q.fmt(a)[:200] for a in tg])
     if flip:
@@ -101,11 +111,12 @@ def run(ctx):
     ctx.ob('C14.clear-halt-forward', 'USBControlEndpoint.clear_endpoint_halt_out', len(dd) == 1 and dd[0].rhs.canon() == 'request_mux.shared.clear_endpoint_halt' and not dd[0].guard, None, 'forwarded from the request handlers')
     # producer
     h = ctx.ir('StandardRequestHandler', 'request.standard')
-    en = q.raises(h, I + 'clear_endpoint_halt.enable')
+    HALT = q.struct_fields(h, I + 'clear_endpoint_halt', [('enable', 1), ('direction', 1), ('number', 4)])
+    en = [q.fold(h, a) for a in HALT['enable'] if a.rhs is not None and not q.is_zero(a.rhs)]
     ctx.need(len(en) == 1, 'clear_endpoint_halt.enable site')
     prod = {I + 'clear_endpoint_halt.direction': I + 'setup.index[7:8]', I + 'clear_endpoint_halt.number': I + 'setup.index[0:4]'}
     for lhs, rhs in prod.items():
-        dd = h.drivers(lhs, exact=True)
+        dd = HALT[lhs.split('.')[-1]]
         ok = len(dd) == 1 and dd[0].rhs.canon() == rhs and q.atoms(dd[0]) == q.atoms(en[0]) and dd[0].state == en[0].state
         ctx.ob('C14.clear-halt-fields', 'StandardRequestHandler.' + lhs.split('.')[-1], ok, dd[0].loc if dd else None, '%s <= %s with the enable strobe' % (lhs, rhs))
     import ast as _ast
